@@ -452,6 +452,114 @@ MCNext == UNCHANGED <<enc, text, want, damaged>>
     ctx.extra['char'] = ('%d (text, encoding) states of spec/CharStr.tla replayed into the 13 restricted character string types '
                          '(text -> octets, octets -> text, DER round trip, damaged octets vs the strict decoders)' % len(states))
 
+
+# ------------------------------------------------------------------------------------ named numbers / bits (spec/NamedVals.tla)
+def named_replay(state):
+    from pyasn1 import error
+    from pyasn1.type import namedval, univ
+    out = []
+    want = state['want']
+    pairs = [(p['name'], p['num']) for p in state['tab']]
+    try:
+        try:
+            nv = namedval.NamedValues(*pairs)
+            built = True
+        except error.PyAsn1Error:
+            built = False
+        if built != want['valid']:
+            out.append('NamedValues(%s) %s, model valid=%s' % (pairs, 'accepted' if built else 'refused', want['valid']))
+        if built and want['valid']:
+            if len(nv) != len(pairs) or list(nv.items()) != pairs:
+                out.append('items %s' % (list(nv.items()),))
+            for cls in (univ.Integer, univ.Enumerated):
+                T = cls(namedValues=nv)
+                for nm, exp in zip(('a', 'b', 'c'), want['byname']):
+                    try:
+                        got = int(T.clone(nm))
+                    except error.PyAsn1Error:
+                        got = -1
+                    if got != exp:
+                        out.append('%s(%r) -> %s, model %s' % (cls.__name__, nm, got, exp))
+                for n, exp in zip((0, 1, 5, 7), want['bynum']):
+                    v = T.clone(n) if cls is univ.Integer or exp else None
+                    if v is None:
+                        continue
+                    shown = v.prettyPrint()
+                    if shown != (exp or str(n)):
+                        out.append('%s(%d).prettyPrint() -> %r, model %r' % (cls.__name__, n, shown, exp or str(n)))
+                    if T.clone(n).clone().namedValues != nv or T.subtype().namedValues != nv:
+                        out.append('clone/subtype lost the table')
+            B = univ.BitString(namedValues=nv)
+            for names, exp in zip((['a'], ['a', 'c'], ['c', 'b'], ['a', 'b', 'c']), want['bits']):
+                try:
+                    got = [int(x) for x in B.clone(', '.join(names))]
+                except error.PyAsn1Error:
+                    got = None
+                if got != exp:
+                    out.append('BitString(%r) -> %s, model %s' % (', '.join(names), got, exp))
+            # adding a table: valid iff the union is one-to-one
+            other = namedval.NamedValues(('c', 5))
+            try:
+                both = nv + other
+                ok = True
+            except error.PyAsn1Error:
+                ok = False
+            if ok != want['add_c5']:
+                out.append('table + (c, 5) %s, model %s' % ('accepted' if ok else 'refused', want['add_c5']))
+    except Exception as e:   # noqa
+        out.append('crash %s: %s' % (type(e).__name__, e))
+    return out
+
+
+def named_part(ctx, sc):
+    maxlen = 2 if ctx.quick else 3
+    with open(sc.file('MC_named.tla'), 'w') as f:
+        f.write("""---- MODULE MC_named ----
+EXTENDS NamedVals
+VARIABLE want
+NoBits == <<9>>
+W(t) == IF ~Valid(t) THEN [valid |-> FALSE, byname |-> <<>>, bynum |-> <<>>, bits |-> <<>>, add_c5 |-> FALSE]
+        ELSE [valid |-> TRUE,
+              byname |-> [k \\in 1..3 |-> LET nm == <<"a", "b", "c">>[k] IN IF Has(t, nm) THEN t[NumOf(t, nm)].num ELSE 0 - 1 + 0],
+              bynum |-> [k \\in 1..4 |-> LET n == <<0, 1, 5, 7>>[k] IN IF HasNum(t, n) THEN NameOfNum(t, n) ELSE ""],
+              bits |-> [k \\in 1..4 |-> LET nms == << {"a"}, {"a", "c"}, {"c", "b"}, {"a", "b", "c"} >>[k]
+                                        IN IF \\A nm \\in nms : Has(t, nm) THEN BitsOf(t, nms) ELSE NoBits],
+              add_c5 |-> Valid(Append(t, [name |-> "c", num |-> 5]))]
+MCInit == Init /\\ want = W(tab)
+MCNext == UNCHANGED <<tab, want>>
+====
+""")
+    with open(sc.file('MC_named.cfg'), 'w') as f:
+        f.write('INIT MCInit\nNEXT MCNext\nCONSTANT MaxLen = %d\nINVARIANT ValidIsOneToOne\nINVARIANT LookupInverse\nCHECK_DEADLOCK FALSE\n' % maxlen)
+    dump = sc.file('named.dump')
+    r = tlc.run(sc.file('MC_named.tla'), sc.file('MC_named.cfg'), sc, dump=dump, timeout=3000)
+    ctx.add_tlc('NamedVals machine (tables of <= %d pairs)' % maxlen, r)
+    if not r.ok:
+        raise core.Machinery('NamedVals model run failed: %s %s\n%s' % (r.violated, r.errors[:2], r.out[-1500:]))
+    states = list(tlaval.parse_dump(open(dump).read()))
+    os.remove(dump)
+    for s in states:
+        w = s['want']
+        w['byname'] = [(-1 if x == -1 else x) for x in w['byname']]
+        w['bits'] = [None if b == [9] else b for b in w['bits']]
+    states.sort(key=lambda s: json.dumps(s, sort_keys=True))
+    res = core.pmap(named_replay, states, chunksize=256)
+    bad = 0
+    for s, divs in zip(states, res):
+        ctx.evaluations += 1
+        if divs:
+            bad += 1
+            ctx.report('named values %s: %s' % ([(p['name'], p['num']) for p in s['tab']], '; '.join(divs[:3])),
+                       {'clause': 'NamedValues', 'part': 'named'}, {'prop': 'C14', 'kind': 'named', 'state': s, 'divergences': divs})
+    ctx.traces += len(states) - bad
+    ctx.keys.add(('named', len(states)))
+    flipped = json.loads(json.dumps(next(s for s in states if s['want']['valid'] and len(s['tab']) == 2)))
+    flipped['want']['byname'] = [x + 1 for x in flipped['want']['byname']]
+    if not named_replay(flipped):
+        raise core.Machinery('named replay self-test failed')
+    ctx.extra['named'] = ('%d name/number tables of spec/NamedVals.tla replayed into NamedValues and the INTEGER / ENUMERATED / BIT STRING '
+                          'constructors that take names' % len(states))
+
 def run(ctx):
     with tlc.Scratch('c14') as sc:
         depth = 1 if ctx.quick else 2
@@ -487,6 +595,7 @@ def run(ctx):
         bitstr_part(ctx, sc)
         oid_part(ctx, sc)
         char_part(ctx, sc)
+        named_part(ctx, sc)
     ctx.rule = ('every state of the generator machine spec/Constraint.tla: (expression tree of depth <= %d over single value, range, '
                 'size, alphabet, intersection, union, exclusion) x candidate values around every boundary; derivation chains '
                 'T0 -> c1 -> c2; value-producing operations (+ - * // %% neg abs << >> ** ; concatenation, slicing, repetition; '
